@@ -501,12 +501,15 @@ class Run:
             self.other_log, self.other, self.other_objs = [], None, {}
         main_val = dict(rec.val)
         n0 = len(self.other_log)
-        if act in ("define_same_name", "subclass", "invalid_def"):
+        if act in ("define_same_name", "subclass", "invalid_def", "states_named_like_attrs"):
             try:
                 self._other_define(step)
                 rec.emit("note", what="other-definition", action=act)
             except Exception as err:  # noqa: BLE001
                 rec.emit("note", what="other-definition", action=act, exc=f"{type(err).__name__}: {err}"[:200])
+            return
+        if act == "construct_incomplete":
+            self._construct_incomplete()
             return
         if act == "clone":
             self._clone(step)
@@ -550,6 +553,57 @@ class Run:
         self._check_isolation(n0, act)
         return
         yield  # pragma: no cover
+
+    def _construct_incomplete(self):
+        """Another machine of the SAME class over a bare model and without listeners: whether it is
+        accepted depends on this construction alone (names only the missing providers have must be
+        reported), not on the instances created before."""
+        from statemachine.exceptions import InvalidDefinition
+
+        sp, rec = self.spec, self.rec
+
+        def only_missing(provs):
+            return provs and "sm" not in provs
+
+        cb_provs = {}
+        for cb in sp["cbs"].values():
+            cb_provs.setdefault(cb["name"], set()).add(cb["provider"])
+        missing = set()
+        for t in sp["transitions"]:
+            for g in t["guards"]:
+                if only_missing(set(sp["guards"][g["name"]]["providers"])):
+                    missing.add(g["name"])
+            for v in t["validators"]:
+                if only_missing(set(sp["validators"][v]["providers"])):
+                    missing.add(v)
+            for grp in t["refs"].values():
+                for r in grp:
+                    if r["by"] == "name" and only_missing(cb_provs.get(r["name"], set())):
+                        missing.add(r["name"])
+        for refs in sp["state_refs"].values():
+            for grp in refs.values():
+                for r in grp:
+                    if r["by"] == "name" and only_missing(cb_provs.get(r["name"], set())):
+                        missing.add(r["name"])
+
+        class _Bare:
+            pass
+
+        keep_log, rec.log = rec.log, []
+        try:
+            import warnings as _w
+            with _w.catch_warnings():
+                _w.simplefilter("ignore")
+                try:
+                    type(self.sm)(_Bare())
+                    got = "built"
+                except InvalidDefinition:
+                    got = "rejected"
+                except Exception as err:  # noqa: BLE001
+                    got = "raised " + type(err).__name__
+        finally:
+            rec.log = keep_log
+        rec.emit("note", what="incomplete-construct", expected="rejected" if missing else "built", got=got, missing=sorted(missing)[:5])
 
     def _clone(self, step):
         """deepcopy / pickle round trip of the main machine; the clone becomes the 'other' instance with
@@ -746,6 +800,25 @@ class Run:
             with _w.catch_warnings():
                 _w.simplefilter("ignore")
                 exec(compile(src, "<subclass>", "exec"), ns)
+        elif act == "states_named_like_attrs":
+            # an unrelated class whose STATE IDS are the names the main machine resolves on itself
+            # (guards, callbacks, validators provided by the machine class)
+            sp = self.spec
+            names = sorted({cb["name"] for cb in sp["cbs"].values() if cb["provider"] == "sm" and cb["kind"] == "method"}
+                           | {n for n, g in sp["guards"].items() if "sm" in g["providers"]}
+                           | {n for n, v in sp["validators"].items() if "sm" in v["providers"]})
+            names = [n for n in names if n.isidentifier() and not n.startswith("__")][:6] or ["zz_only"]
+            L = [f"class Unrelated_{uid}_{len(getattr(self, 'extra_mods', []))}(StateMachine):"]
+            for k_, n in enumerate(names):
+                L.append(f"    {n} = State(initial=True)" if k_ == 0 else f"    {n} = State()")
+            chain = " | ".join(f"{a}.to({b})" for a, b in zip(names, names[1:] + names[:1]))
+            L.append(f"    zz_next = {chain}")
+            import warnings as _w
+            with _w.catch_warnings():
+                _w.simplefilter("ignore")
+                exec(compile("\n".join(L) + "\n", "<unrelated>", "exec"), ns)
+                inst = [v for k_, v in ns.items() if k_.startswith("Unrelated_")][0]()
+                inst.send("zz_next")
         else:
             try:
                 exec(compile("class Broken(StateMachine):\n    a = State()\n    b = State()\n    go = a.to(b)\n", "<invalid>", "exec"), ns)
